@@ -125,7 +125,7 @@ def demos():
            ["InverseFlagLost", "ParametersDiffer", "accepted"])
     # C12
     t = [{"name": "S2gate", "modes": [0, 1]}]
-    d = {"template": t, "perm": [1], "compiled": [{"name": "S2gate", "modes": [0, 1], "p": [500000, 0], "lo": [0, 0], "hi": [1000000, 0], "dag": False}]}
+    d = {"template": t, "perm": [1], "bins": 1, "maxbins": 1, "compiled": [{"name": "S2gate", "modes": [0, 1], "p": [500000, 0], "dom": [[[0, 1000000]], [[0, 0]]], "dag": False}]}
     d2 = json.loads(json.dumps(d))
     d2["compiled"][0]["p"][0] = 1400000
     d3 = json.loads(json.dumps(d))
